@@ -156,7 +156,7 @@ pub fn case_permutation(bytes: &[u8], ctx: &mut Ctx) -> CaseResult {
     let mode = BuildMode::from_src(&mut s);
     let mut cfg = GenCfg::standard();
     cfg.shape_mutations = false;
-    cfg.huge = s.chance(8);
+    cfg.huge = true;
     if s.chance(150) {
         cfg.strict_friendly = true;
         cfg.mutation_rate = 20;
